@@ -96,7 +96,8 @@ def argv_jobs(ctx, first):
         targets = rng.choice([["t1"], ["t1"], ["t2", "t1"], ["t1", "t2"]])
         form = rng.choice(["root", "run"])
         argv = ["-c", "cfg.json", "--raw"] + (["run"] if form == "run" else []) + targets + ["--"] + list(v)
-        jobs.append({"id": first + len(jobs), "files": {"cfg.json": clilib.jcfg(doc)}, "argv": argv, "keep": ["out"], "kind": "argv",
+        # (taskctl's own environment has an ARGS of its own - a nested invocation: the tasks must see THIS invocation's arguments)
+        jobs.append({"id": first + len(jobs), "files": {"cfg.json": clilib.jcfg(doc)}, "argv": argv, "keep": ["out"], "kind": "argv", "env": {"ARGS": "inherited from an outer taskctl"},
                      "targets": targets, "words": list(v), "mode": form})
     return jobs
 
@@ -112,6 +113,16 @@ def undef_jobs(first):
                      "jobs": [[((("nostart",) if i == p else ("exit", 0)), []) for i in range(ncmds)]]}
                 jobs.append({"id": first + len(jobs), "files": {"cfg.json": clilib.jcfg(doc)}, "argv": ["-c", "cfg.json", "--raw", "t"], "keep": ["out"],
                              "kind": "undef", "a": a, "mode": "p%d/%d" % (p, ncmds)})
+    # the undefined variable is reached THROUGH a task variable whose value refers to it: the task fails before any of its commands executes
+    for ncmds in (1, 3):
+        for p in range(ncmds):
+            for allow in (False, True):
+                cmds = ['echo "c0.%d%s" >> "$PROJ/out"' % (i, " {{.Via}}" if i == p else "") for i in range(ncmds)]
+                doc = {"tasks": {"t": {"command": cmds, "allow_failure": allow, "variables": {"Via": "hello {{.NoSuchVariable}}"}, "after": ['echo a0 >> "$PROJ/out"']}}}
+                a = {"cond": None, "before": [], "after": [("exit", 0)], "allow": allow, "novar": True,
+                     "jobs": [[((("nostart",) if i == 0 else ("exit", 0)), []) for i in range(ncmds)]]}
+                jobs.append({"id": first + len(jobs), "files": {"cfg.json": clilib.jcfg(doc)}, "argv": ["-c", "cfg.json", "--raw", "t"], "keep": ["out"],
+                             "kind": "undef", "a": a, "mode": "via-variable p%d/%d" % (p, ncmds)})
     return jobs
 
 
